@@ -29,6 +29,9 @@ pub enum CustomKind {
     Lin,
     /// out = x0 (.) x1 (same shape)
     Prod2,
+    /// the same product, but the user's forward closure is written with the library's own
+    /// arithmetic on the operands (`|x| x[0] * x[1]`), so its result already carries a graph
+    Prod2Crate,
     /// out = x (.) x ; the derivative is obtained by a nested autodiff pass on a fresh graph
     NestedSq,
 }
@@ -82,6 +85,7 @@ impl Op {
             Op::Conv { .. } => "conv",
             Op::Custom { kind: CustomKind::Lin, .. } => "custom_lin",
             Op::Custom { kind: CustomKind::Prod2, .. } => "custom_prod2",
+            Op::Custom { kind: CustomKind::Prod2Crate, .. } => "custom_prod2_crate_forward",
             Op::Custom { kind: CustomKind::NestedSq, .. } => "custom_nestedsq",
         }
     }
